@@ -351,7 +351,9 @@ fn estr(rng: &mut Rng, x: bool) -> String {
     }
 }
 fn small_deg(rng: &mut Rng) -> i64 {
-    match rng.below(10) {
+    match rng.below(if BIG.load(std::sync::atomic::Ordering::Relaxed) { 12 } else { 10 }) {
+        10 => rng.range(30, 70) as i64,
+        11 => rng.range(250, 270) as i64,
         0 => -1,
         1 => 0,
         2 => 1,
@@ -359,9 +361,12 @@ fn small_deg(rng: &mut Rng) -> i64 {
     }
 }
 
+static BIG: std::sync::atomic::AtomicBool = std::sync::atomic::AtomicBool::new(false);
+
 pub fn gen(rng: &mut Rng, thorough: bool, out: &mut Vec<String>) {
     let (t, c) = thresholds();
-    let reps = if thorough { 60 } else { 8 };
+    BIG.store(thorough, std::sync::atomic::Ordering::Relaxed);
+    let reps = if thorough { 150 } else { 8 };
     let unary = [
         "degree", "is_zero", "is_one", "is_x", "leading_coefficient", "coefficients", "into_coefficients", "into_owned", "clone",
         "formal_derivative", "slow_square", "square", "fast_square", "neg", "encode", "hash", "display",
